@@ -249,7 +249,19 @@ Rich(T, env, f) ==
     [] T.t = "app"   -> IF f = 0 THEN {} ELSE Rich(Instantiate(env, T.n, T.args), env, f - 1)
     [] OTHER -> Mem1(T, env, f)
 
+\* Foreign objects, never capped: accepted values re-dressed as objects whose prototype is not Object.prototype (no prototype,
+\* a class instance) that also carry an undeclared key - at the root and one level below it.  Whatever the runtime does for such
+\* objects (C03: parse must still project them, C11: the undeclared key must still be seen) is asked for every type.
+HasZz(v) == \E i \in DOMAIN v.ps : v.ps[i].key = "zz"
+Redress(v, c) == IF v.k = "obj" /\ v.c = "plain" /\ ~HasZz(v) THEN {VObjC(c, v.ps \o <<P("zz", VNum("1"))>>)} ELSE {}
+Foreign(T, env, f) ==
+  LET ms == Take({x \in Rich(T, env, f) : x.k = "obj" /\ x.c = "plain"}, 3) IN
+  UNION { Redress(x, "null") \cup Redress(x, "inst")
+          \cup UNION { {VObj(SetAt(x.ps, i, P(x.ps[i].key, y))) : y \in Redress(x.ps[i].v, "inst")} : i \in DOMAIN x.ps }
+        : x \in ms }
+
 Probe(T, env, fuel, cap) == Take(Cand(T, env, fuel), cap) \cup AtomPool \cup Take(Hostile(T, env, fuel), 16) \cup Take(Faults(T, env, fuel), 40) \cup Take(Rich(T, env, fuel), 24)
+                            \cup Take(Foreign(T, env, fuel), 9)
 \* ------------------------------------------------------------------ twins
 \* Near-copies of a type: one attribute changed (a literal, the optional mark of a property, the presence of a rest element or of an
 \* index signature, one member of a union, the key and value of a Map, a constructor name, one format).  The family "twin" puts a
